@@ -78,6 +78,12 @@ def fold(run, cases, results):
         for n in r.get("notes", []):
             run.extra.setdefault("notes", {})
             run.extra["notes"][n] = run.extra["notes"].get(n, 0) + 1
+        if r.get("status") == "outside-subset":
+            if getattr(c, "allow_outside", False):
+                run.extra.setdefault("pyvc_not_claimed_outside_subset", []).append(r["name"])
+            else:
+                # the function was inside the pyvc subset when the contract was written: it can no longer be decided (never a violation)
+                run.undecided_obligation(r["name"], "function left the pyvc subset: %s" % r.get("unsupported", ""))
         if r.get("status") == "rejected":
             run.extra["forward_rejected_configs"] = run.extra.get("forward_rejected_configs", 0) + 1
         if r.get("wall", 0) > 20:
